@@ -254,6 +254,31 @@ def b_pderef(ex, st, a, m, c):
     return a[0]
 
 
+@builtin(r"^<Matrix<f64, U2, U1, ArrayStorage<f64, U2, U1>> as Deref(Mut)?>::deref(_mut)?$", "Vector2 deref to XY coordinates (same storage)")
+def b_vderef(ex, st, a, m, c):
+    return a[0]
+
+
+@builtin(r"^<Matrix<f64, U2, U1, ArrayStorage<f64, U2, U1>> as (Div|Mul)<f64>>::(div|mul)$", "Vector2 / scalar, Vector2 * scalar")
+def b_vscale(ex, st, a, m, c):
+    v = deref_arg(ex, st, a[0])
+    op = "fdiv" if "div" in c.rsplit("::", 1)[-1] else "fmul"
+    return Agg("struct:Vec2", [T.fbin(op, v.fields[0], a[1]), T.fbin(op, v.fields[1], a[1])])
+
+
+@builtin(r"^<&?Point<f64, U2> as (Add|Sub)<&?Matrix<f64, U2, U1, ArrayStorage<f64, U2, U1>>>>::(add|sub)$", "Point +- Vector2")
+def b_paddv(ex, st, a, m, c):
+    p, v = deref_arg(ex, st, a[0]), deref_arg(ex, st, a[1])
+    op = "fadd" if c.rsplit("::", 1)[-1] == "add" else "fsub"
+    return point(T.fbin(op, p.fields[0], v.fields[0]), T.fbin(op, p.fields[1], v.fields[1]))
+
+
+@builtin(r"^(nalgebra::)?center::<f64, U2>$", "nalgebra::center = midpoint of two points")
+def b_center(ex, st, a, m, c):
+    p, q = deref_arg(ex, st, a[0]), deref_arg(ex, st, a[1])
+    return point(T.fbin("fmul", 0.5, T.fbin("fadd", p.fields[0], q.fields[0])), T.fbin("fmul", 0.5, T.fbin("fadd", p.fields[1], q.fields[1])))
+
+
 @builtin(r"^<&?Point<f64, U2> as Sub(<&?Point<f64, U2>>)?>::sub$", "Point - Point = vector")
 def b_psub(ex, st, a, m, c):
     p, q = deref_arg(ex, st, a[0]), deref_arg(ex, st, a[1])
